@@ -2,326 +2,6 @@
 // real code: src/paged_writer.rs  (default configuration: cargo feature crc32c off)
 use vstd::prelude::*;
 verus! {
-//@nopub
-//@include ioerr.rs
-//@include error.rs
-//@include dev.rs
-
-//@item src/paged_writer.rs const PAGE_SIZE
-//@enditem
-//@item src/paged_writer.rs const CRC_SIZE
-//@enditem
-//@item src/paged_writer.rs const PAGE_PAYLOAD_SIZE
-//@enditem
-proof fn const_check() ensures PAGE_SIZE == 1024, CRC_SIZE == 4, PAGE_PAYLOAD_SIZE == 1020 {}
-
-//@item src/paged_writer.rs struct PagedWriter
-//@rw <T: Write \+ Read \+ Seek> ==> <empty>
-//@rw writer: T, ==> writer: Dev,
-//@rw \[u8; PAGE_SIZE as usize\] ==> [u8; 1024]
-//@rw #\[cfg\(not\(feature = "crc32c"\)\)\] ==> <empty>
-//@enditem
-
-impl PagedWriter {
-    pub open spec fn dl(&self) -> int { self.writer.data@.len() as int }
-    pub open spec fn p(&self) -> int { self.writer.pos as int / 1024 }
-    pub open spec fn page_exists(&self) -> bool { self.writer.pos < self.writer.data@.len() }
-
-    /// representation invariant
-    pub open spec fn wf(&self) -> bool {
-        &&& self.dl() % 1024 == 0
-        &&& self.writer.pos % 1024 == 0
-        &&& self.writer.pos <= self.dl()
-        &&& self.offset < 1020
-        // every device page carries a valid checksum
-        &&& all_sealed(self.writer.data@)
-        // bytes at/after the cursor are untouched since the page was loaded
-        &&& (self.page_exists() ==> forall|i: int| self.offset <= i < 1020 ==> self.page_buffer@[i] == self.writer.data@[self.writer.pos + i])
-        &&& (!self.page_exists() ==> forall|i: int| self.offset <= i < 1020 ==> self.page_buffer@[i] == 0u8)
-    }
-    /// number of payload pages of the logical stream
-    pub open spec fn npages(&self) -> int {
-        if self.dl() / 1024 >= self.p() + (if self.offset > 0 { 1int } else { 0int }) { self.dl() / 1024 } else { self.p() + 1 }
-    }
-    /// abstract state: the logical byte stream written so far, page granular (zero filled)
-    pub open spec fn stream(&self) -> Seq<u8> {
-        Seq::new((1020 * self.npages()) as nat, |i: int|
-            if i / 1020 == self.p() { self.page_buffer@[i % 1020] } else { self.writer.data@[1024 * (i / 1020) + i % 1020] })
-    }
-    /// logical cursor
-    pub open spec fn cursor(&self) -> int { 1020 * self.p() + self.offset }
-    /// C16: an operation that reports success has seen no device error
-    pub open spec fn no_new_fault(&self, o: &Self) -> bool { self.writer.failed@ == o.writer.failed@ }
-
-//@fn src/paged_writer.rs PagedWriter new serves=C11,C16,C02 ret=r
-//@rw mut writer: T ==> mut writer: Dev
-//@rw \[0_u8; PAGE_SIZE as usize\] ==> [0_u8; 1024]
-//@rw #\[cfg\(not\(feature = "crc32c"\)\)\] ==> <empty>
-//@sig
-        ensures match r {
-            // only an empty device is accepted; the logical stream starts empty
-            Ok(w) => w.wf() && writer.data@.len() == 0 && w.writer.data@ == writer.data@ && w.stream() =~= Seq::<u8>::empty() && w.cursor() == 0
-                && w.writer.failed@ == writer.failed@,
-            Err(_) => true },
-//@endfn
-
-//@fn src/paged_writer.rs PagedWriter read_current_page serves=C11,C16 ret=r
-//@rw std::io::Result<\(\)> ==> std::result::Result<(), IoError>
-//@sig
-        requires old(self).dl() % 1024 == 0, old(self).writer.pos % 1024 == 0, old(self).writer.pos <= old(self).dl(),
-        ensures final(self).writer.data@ == old(self).writer.data@, final(self).offset == old(self).offset,
-            match r {
-            // for every short-read schedule of the device: the device page at pos, or zeros if absent
-            Ok(_) => final(self).no_new_fault(old(self))
-                && (old(self).page_exists() ==> final(self).writer.pos == old(self).writer.pos + 1024
-                        && final(self).page_buffer@ =~= old(self).writer.data@.subrange(old(self).writer.pos as int, old(self).writer.pos + 1024))
-                && (!old(self).page_exists() ==> final(self).writer.pos == old(self).writer.pos
-                        && final(self).page_buffer@ =~= Seq::new(1024, |i: int| 0u8)),
-            Err(_) => final(self).writer.failed@ },
-//@body_start
-        let ghost pos0 = self.writer.pos as int;
-        let ghost data0 = self.writer.data@;
-        let ghost f0 = self.writer.failed@;
-//@loop 0 before hdr=while !unread\.is_empty\(\)
-        let ghost whole = final(unread)@;   // prophecy: final content of the whole page buffer
-        let ghost done: Seq<u8> = Seq::empty();
-//@loop 0 head
-            invariant
-                self.writer.data@ == data0, data0 == old(self).writer.data@, data0.len() % 1024 == 0, pos0 % 1024 == 0, pos0 <= data0.len(),
-                self.offset == old(self).offset, self.writer.failed@ == f0,
-                done.len() + unread@.len() == 1024,
-                self.writer.pos == pos0 + done.len(),
-                done.len() > 0 ==> pos0 < data0.len(),
-                done =~= data0.subrange(pos0, pos0 + done.len()),
-                whole =~= done + final(unread)@,
-            ensures
-                unread@.len() > 0 ==> pos0 + done.len() >= data0.len(),
-            decreases unread@.len()
-//@stmt 0 before unread = &mut unread\[read\.\.\]
-            proof { done = done + unread@.subrange(0, read as int); }
-//@call fill 0 before
-        let ghost un = unread@;
-//@call fill 0 after
-        proof {
-            assert(self.page_buffer@ =~= whole);
-            assert(whole =~= done + Seq::new(un.len(), |i: int| 0u8));
-            if done.len() > 0 && un.len() > 0 {
-                // loop left through `break`: device exhausted in the middle of a page: impossible
-                assert(pos0 + done.len() >= data0.len());
-                assert(false);
-            }
-        }
-//@endfn
-
-//@fn src/paged_writer.rs PagedWriter write trait=Write serves=C11,C16,C02 ret=r
-//@rw std::io::Result<usize> ==> std::result::Result<usize, IoError>
-//@rw #\[cfg\(not\(feature = "crc32c"\)\)\] ==> <empty>
-//@rw #\[cfg\(feature = "crc32c"\)\]\s*let crc = [^;]*; ==> <empty>
-//@rw crc\.to_be_bytes\(\) ==> shim_u32_to_be_bytes(crc)
-//@sig
-        requires old(self).wf(), old(self).dl() + 2048 < u64::MAX,
-        ensures match r {
-            Ok(n) => final(self).wf() && final(self).no_new_fault(old(self))
-                // short write at the page boundary only
-                && n == (if buf@.len() <= 1020 - old(self).offset { buf@.len() as int } else { 1020 - old(self).offset })
-                && final(self).dl() <= old(self).dl() + 1024
-                && (old(self).offset + n < 1020 ==> final(self).dl() == old(self).dl() && final(self).offset == old(self).offset + n)
-                && (old(self).offset + n == 1020 ==> final(self).offset == 0)
-                && final(self).cursor() == old(self).cursor() + n
-                && final(self).stream().len() >= old(self).stream().len()
-                // frame over the whole view: written range = buf, everything else unchanged, new page zero
-                && (forall|i: int| 0 <= i < final(self).stream().len() ==> #[trigger] final(self).stream()[i] ==
-                        (if old(self).cursor() <= i < old(self).cursor() + n { buf@[i - old(self).cursor()] }
-                         else if i < old(self).stream().len() { old(self).stream()[i] } else { 0u8 })),
-            Err(_) => final(self).writer.failed@ },
-//@stmt 0 after self\.offset \+= writeable_bytes
-        let ghost mid = *self;
-        proof {
-            assert(mid.writer == old(self).writer);
-            assert forall|i: int| 0 <= i < 1020 implies #[trigger] mid.page_buffer@[i] ==
-                (if old(self).offset <= i < old(self).offset + writeable_bytes { buf@[i - old(self).offset] } else { old(self).page_buffer@[i] }) by { }
-        }
-//@call write_all 0 before
-            let ghost d0 = self.writer.data@;
-            let ghost pb = self.page_buffer@;
-//@call read_current_page 0 before
-            let ghost d1 = self.writer.data@;
-//@call seek 0 after
-            proof {
-                let p = old(self).p();
-                be4_len(crc);
-                assert(pb.subrange(0, 1020) =~= mid.page_buffer@.subrange(0, 1020));
-                assert(pb.subrange(1020, 1024) =~= be4(crc));
-                assert(sealed_page(pb));
-                assert(d1.len() == (if old(self).page_exists() { d0.len() } else { d0.len() + 1024 }));
-                assert forall|k: int| 0 <= k < d1.len() / 1024 implies sealed_page(#[trigger] page(d1, k)) by {
-                    if k == p { assert(page(d1, k) =~= pb); } else { assert(page(d1, k) =~= page(d0, k)); }
-                }
-                assert(self.p() == p + 1);
-                assert forall|i: int| 0 <= i < self.stream().len() implies #[trigger] self.stream()[i] ==
-                        (if old(self).cursor() <= i < old(self).cursor() + writeable_bytes { buf@[i - old(self).cursor()] }
-                         else if i < old(self).stream().len() { old(self).stream()[i] } else { 0u8 }) by {
-                    let k = i / 1020;
-                    if k == p {
-                        assert(d1[1024 * k + i % 1020] == pb[i % 1020]);
-                    } else if k == p + 1 {
-                    } else {
-                        assert(d1[1024 * k + i % 1020] == d0[1024 * k + i % 1020]);
-                    }
-                }
-            }
-//@tail
-        proof {
-            if mid.offset != 1020 {
-                assert forall|i: int| 0 <= i < self.stream().len() implies #[trigger] self.stream()[i] ==
-                        (if old(self).cursor() <= i < old(self).cursor() + writeable_bytes { buf@[i - old(self).cursor()] }
-                         else if i < old(self).stream().len() { old(self).stream()[i] } else { 0u8 }) by { }
-            }
-        }
-//@endfn
-
-    /// std::io::Write::write_all (provided method of the trait), re-stated over the extracted `write` and
-    /// verified against its contract: loops until the buffer is consumed, Ok(0) is an error
-    fn write_all(&mut self, buf: &[u8]) -> (r: std::result::Result<(), IoError>)
-        requires old(self).wf(), old(self).dl() + 1024 * ((old(self).offset + buf@.len()) / 1020 + 3) < u64::MAX,
-        ensures match r {
-            Ok(_) => final(self).wf() && final(self).no_new_fault(old(self)) && final(self).cursor() == old(self).cursor() + buf@.len()
-                && final(self).stream().len() >= old(self).stream().len()
-                && (forall|i: int| 0 <= i < final(self).stream().len() ==> #[trigger] final(self).stream()[i] ==
-                        (if old(self).cursor() <= i < old(self).cursor() + buf@.len() { buf@[i - old(self).cursor()] }
-                         else if i < old(self).stream().len() { old(self).stream()[i] } else { 0u8 })),
-            Err(_) => true },
-    {
-        let mut done: usize = 0;
-        while done < buf.len()
-            invariant
-                done <= buf@.len(), self.wf(), self.dl() + 1024 * ((self.offset + (buf@.len() - done)) / 1020 + 3) < u64::MAX,
-                self.no_new_fault(old(self)),
-                self.cursor() == old(self).cursor() + done,
-                self.stream().len() >= old(self).stream().len(),
-                forall|i: int| 0 <= i < self.stream().len() ==> #[trigger] self.stream()[i] ==
-                        (if old(self).cursor() <= i < old(self).cursor() + done { buf@[i - old(self).cursor()] }
-                         else if i < old(self).stream().len() { old(self).stream()[i] } else { 0u8 }),
-            decreases buf@.len() - done
-        {
-            let n = self.write(vstd::slice::slice_subrange(buf, done, buf.len()))?;
-            if n == 0 { return Err(IoError::new(ErrorKind::WriteZero, "")); }
-            done = done + n;
-        }
-        Ok(())
-    }
-
-//@fn src/paged_writer.rs PagedWriter physical_seek serves=C11,C16,C02,C06 ret=r
-//@sig
-        requires old(self).wf(), old(self).dl() + 4096 < u64::MAX,
-        ensures match r {
-            // accepted iff inside the flushed file and not inside checksum bytes
-            Ok(_) => final(self).wf() && final(self).no_new_fault(old(self)) && pos <= 1024 * old(self).npages() && pos % 1024 < 1020
-                && final(self).stream() =~= old(self).stream()
-                && final(self).cursor() == 1020 * (pos as int / 1024) + pos as int % 1024,
-            Err(e) => final(self).writer.failed@ || pos > 1024 * old(self).npages() || pos % 1024 >= 1020 },
-//@call flush 0 after
-        let ghost fl = *self;
-//@tail
-        proof {
-            let d = self.writer.data@;
-            assert(d == fl.writer.data@);
-            assert forall|i: int| 0 <= i < self.stream().len() implies self.stream()[i] == old(self).stream()[i] by {
-                if i / 1020 == self.p() { assert(self.page_buffer@[i % 1020] == d[1024 * (i / 1020) + i % 1020]); }
-            }
-        }
-//@endfn
-
-//@fn src/paged_writer.rs PagedWriter physical_size serves=C11,C16,C02 ret=r
-//@sig
-        requires old(self).wf(), old(self).dl() + 4096 < u64::MAX,
-        ensures match r {
-            Ok(sz) => final(self).wf() && final(self).no_new_fault(old(self)) && final(self).stream() =~= old(self).stream() && final(self).cursor() == old(self).cursor()
-                // size of the flushed file: whole pages, 1024 per 1020 payload bytes
-                && sz == 1024 * old(self).npages() && sz == final(self).dl()
-                && (forall|i: int| 0 <= i < 1020 * old(self).npages() ==> final(self).writer.data@[phys(i)] == #[trigger] old(self).stream()[i]),
-            Err(_) => final(self).writer.failed@ },
-//@endfn
-
-//@fn src/paged_writer.rs PagedWriter physical_position serves=C11,C16,C02,C06,C01 ret=r
-//@sig
-        requires old(self).wf(), old(self).dl() + 2048 < u64::MAX,
-        ensures match r {
-            // reported physical position = phys(logical cursor): never inside checksum bytes
-            Ok(p) => final(self).wf() && final(self).no_new_fault(old(self)) && final(self).stream() == old(self).stream() && final(self).cursor() == old(self).cursor()
-                    && p == phys(old(self).cursor()) && p % 1024 < 1020,
-            Err(_) => final(self).writer.failed@ },
-//@endfn
-
-//@fn src/paged_writer.rs PagedWriter align serves=C11,C16,C02 ret=r
-//@rw &zeros\[mod_offset\.\.\] ==> vstd::slice::slice_subrange(&zeros, mod_offset, 4)
-//@sig
-        requires old(self).wf(), old(self).dl() + 4096 < u64::MAX,
-        ensures match r {
-            Ok(_) => final(self).wf() && final(self).no_new_fault(old(self)) && final(self).cursor() % 4 == 0 && final(self).cursor() - old(self).cursor() < 4
-                && final(self).cursor() >= old(self).cursor()
-                && final(self).stream().len() >= old(self).stream().len()
-                // only zero bytes are written, nothing before the cursor changes
-                && (forall|i: int| 0 <= i < final(self).stream().len() ==> #[trigger] final(self).stream()[i] ==
-                        (if old(self).cursor() <= i < final(self).cursor() { 0u8 }
-                         else if i < old(self).stream().len() { old(self).stream()[i] } else { 0u8 })),
-            Err(_) => true },
-//@endfn
-
-//@fn src/paged_writer.rs PagedWriter flush trait=Write serves=C11,C16,C02 ret=r
-//@rw std::io::Result<\(\)> ==> std::result::Result<(), IoError>
-//@rw #\[cfg\(not\(feature = "crc32c"\)\)\] ==> <empty>
-//@rw #\[cfg\(feature = "crc32c"\)\]\s*let crc = [^;]*; ==> <empty>
-//@rw crc\.to_be_bytes\(\) ==> shim_u32_to_be_bytes(crc)
-//@sig
-        requires old(self).wf()
-        ensures match r {
-            Ok(_) => final(self).wf() && final(self).no_new_fault(old(self)) && final(self).stream() =~= old(self).stream() && final(self).cursor() == old(self).cursor()
-                // C11: after a flush the device payload IS the logical stream, whole pages, all sealed
-                && final(self).dl() == 1024 * old(self).npages()
-                && (forall|i: int| 0 <= i < 1020 * old(self).npages() ==> final(self).writer.data@[phys(i)] == #[trigger] old(self).stream()[i]),
-            Err(_) => final(self).writer.failed@ },
-//@call write_all 0 before
-            let ghost d0 = self.writer.data@;
-//@call seek 0 after
-            proof {
-                let d1 = self.writer.data@;
-                let pb = self.page_buffer@;
-                let p = old(self).p();
-                be4_len(crc);
-                assert(pb.subrange(0, 1020) =~= old(self).page_buffer@.subrange(0, 1020));
-                assert(pb.subrange(1020, 1024) =~= be4(crc));
-                assert(sealed_page(pb));
-                assert(d1.len() == (if old(self).page_exists() { d0.len() } else { d0.len() + 1024 }));
-                assert forall|k: int| 0 <= k < d1.len() / 1024 implies sealed_page(#[trigger] page(d1, k)) by {
-                    if k == p { assert(page(d1, k) =~= pb); } else { assert(page(d1, k) =~= page(d0, k)); }
-                }
-                assert(self.page_exists());
-                assert forall|i: int| 0 <= i < 1020 implies self.page_buffer@[i] == d1[self.writer.pos + i] by { }
-                assert(self.npages() == old(self).npages());
-                assert forall|i: int| 0 <= i < 1020 * old(self).npages() implies
-                    d1[1024 * (i / 1020) + i % 1020] == #[trigger] old(self).stream()[i] by {
-                    if i / 1020 == p { } else { assert(d1[1024 * (i / 1020) + i % 1020] == d0[1024 * (i / 1020) + i % 1020]); }
-                }
-            }
-//@endfn
-
-    // canary (vacuity guard): false postcondition on the real physical_position must fail
-//@fn src/paged_writer.rs PagedWriter physical_position rename=physical_position__canary canary ret=r
-//@sig
-        requires old(self).wf(), old(self).dl() + 2048 < u64::MAX,
-        ensures match r { Ok(p) => p == phys(old(self).cursor()) + 4, Err(_) => true },
-//@endfn
-}
-
-/// C11 corollary: right after a successful flush, logical(device) is the logical stream
-proof fn theorem_flush_payload_is_stream(w: PagedWriter, d: Seq<u8>, s: Seq<u8>)
-    requires d.len() == 1024 * w.npages(), s == w.stream(), w.npages() >= 0,
-        forall|i: int| 0 <= i < 1020 * w.npages() ==> d[phys(i)] == #[trigger] s[i],
-    ensures logical(d) =~= s
-{
-    assert(d.len() / 1024 == w.npages());
-}
-
+//@include page_w_body.rs
 } // verus!
 fn main() {}
